@@ -309,6 +309,12 @@ class C09(Prop):
             self.info = mt.translate(core.REPO)
         if self.assets is None:
             self.assets = mg.list_assets()
+            caps = {}
+            for m, pth, cname, v in self.info["caps"]:
+                caps[cname] = v
+                caps[cname + "_" + m] = v
+            self.synth_specs = mg.synth_specs(self.assets, caps)
+            self.synth_paths = mg.build_synth(self.synth_specs)
 
     # ---------------------------------------------------------------- explore cases
     def gen_rules(self, rng, kind, size):
@@ -348,8 +354,15 @@ class C09(Prop):
                 ln = layout[i]["len"]
                 layout[i]["described"] = rng.choice([ln + 1, ln + 4096, max(0, ln - 1), ln // 2, 0, ln * 2 + 7, 1 << 40])
             params["mode"] = rng.choice(["legacy", "legacy", "fast", "single_pass"])
+        rules = self.gen_rules(rng, kind, size)
+        if size > 0 and rng.chance(1, 5):
+            # adjacent regions incl. tiny ones, legacy mode (regions can be refetched), streaming functions over ranges
+            # that cross several of them
+            layout = mg.gen_layout_adjacent(rng, size)
+            params["mode"] = "legacy" if rng.chance(3, 4) else rng.choice(["fast", "single_pass"])
+            rules = rules[:6] + mg.stream_rules(rng, layout, "s")
         return {"kind": "explore", "asset": path, "fkind": kind, "mutation": mkind, "what": what, "edits": edits,
-                "layout": layout, "params": params, "rules": self.gen_rules(rng, kind, size)}
+                "layout": layout, "params": params, "rules": rules}
 
     def gen_random_bytes(self, rng):
         c = rng.below(5)
@@ -366,8 +379,13 @@ class C09(Prop):
         size = len(data)
         params = {"process_memory": rng.chance(1, 2)}
         layout = mg.gen_layout(rng, size) if rng.chance(1, 2) else None
+        rules = self.gen_rules(rng, "other", size)
+        if size > 8 and rng.chance(1, 2):
+            layout = mg.gen_layout_adjacent(rng, size)
+            params["mode"] = "legacy"
+            rules = rules[:4] + mg.stream_rules(rng, layout, "s")
         return {"kind": "explore", "base_hex": data.hex(), "fkind": "other", "mutation": "random", "what": [], "edits": [],
-                "layout": layout, "params": params, "rules": self.gen_rules(rng, "other", size)}
+                "layout": layout, "params": params, "rules": rules}
 
     # ---------------------------------------------------------------- generation
     def generate(self, ctx, rng, n):
@@ -381,6 +399,13 @@ class C09(Prop):
         for i, a in enumerate(fmt):
             if len(cases) < n_explore // 4:
                 cases.append(self.gen_explore(rng.fork("pristine%d" % i), a, True))
+        # cap amplification: synthetic files around every reachable documented maximum
+        for i, (name, _, m, cpath, req) in enumerate(self.synth_specs):
+            pth = self.synth_paths[name]
+            kind = {"pe": "pe", "elf": "elf", "macho": "fat" if "fat" in name else "macho"}[m]
+            c = self.gen_explore(rng.fork("synth%d" % i), (pth, open(pth, "rb").read(), kind), True)
+            c.update({"mutation": "synthetic", "what": [name]})
+            cases.append(c)
         i = 0
         while len(cases) < n_explore:
             r = rng.fork("m%d" % i)
@@ -587,7 +612,8 @@ class C09(Prop):
             ctx.count("kind=" + c.get("fkind", "?"))
             ctx.count("mutation=" + c.get("mutation", "?"))
             lay = c.get("layout")
-            ctx.count("layout=" + ("contiguous" if lay is None else "fragmented" + ("+described!=fetched" if any("described" in r for r in lay) else "")))
+            ctx.count("layout=" + ("contiguous" if lay is None else "fragmented" + ("+described!=fetched" if any("described" in r for r in lay) else "")
+                                   + ("+tiny adjacent regions" if any(r["tag"].startswith("s") for r in c["rules"]) else "")))
             ctx.count("process_memory=%s" % c["params"].get("process_memory"))
             if isinstance(o, dict) and "matched" in o:
                 ctx.count("rules:total", len(c["rules"]))
@@ -614,6 +640,10 @@ class C09(Prop):
                 c = caps.get((m, path))
                 if c and n > c[1]:
                     problems.append("%s.%s has %d elements > %s = %d" % (m, path, n, c[0], c[1]))
+        for m, p, cname, v in self.info["int_caps"]:
+            x = out.get("ints", {}).get(m, {}).get(".".join(p))
+            if x is not None and x > v:
+                problems.append("%s.%s = %d > %s = %d" % (m, ".".join(p), x, cname, v))
         return problems
 
     def term(self, ctx, case, out):
